@@ -7,7 +7,10 @@ Reference model: frozenset of covered parent positions (bcv.models.posmodel).  M
   set.has_overlap, set.intersection, set.union, set.union_preserve, set.minus, set.contains   (all flag combinations)
   set.gaps, set.merge, set.optimize, set.extend, set.reverse, set.shift, set.strand-ops, set.distance
   set.parent-flags   mismatched parents: False / EmptyLocation / unchanged, MismatchedParentException when strict
+  ambient.*          the same invariant and set-model monitors attached as icontract contracts (bcv/pytest_plugin.py) to the
+                     real classes while the repository's own tests run (quick: tests/minimal/location; thorough: all tests)
 """
+import sys
 from collections import Counter
 
 from bcv.gen import loc as G
@@ -29,7 +32,8 @@ EXHAUSTIVE_SCOPE = {t: f"pairs: genome {s['GP']}, <=2 blocks, 3 strands; unary: 
 FLOOR = {"quick": 20000, "thorough": 100000}
 REQUIRED_MONITORS = ["inv.wellformed", "inv.span", "inv.normalised", "inv.no-empty-block", "set.has_overlap", "set.intersection", "set.union",
                      "set.union_preserve", "set.minus", "set.contains", "set.gaps", "set.merge", "set.optimize", "set.extend",
-                     "set.reverse", "set.shift", "set.strand-ops", "set.distance", "set.parent-flags"]
+                     "set.reverse", "set.shift", "set.strand-ops", "set.distance", "set.parent-flags",
+                     "ambient.inv.wellformed", "ambient.set.intersection"]
 _L = "inscripta.biocantor.location.location_impl:"
 REACH = [_L + x for x in (
     "SingleInterval._has_overlap_single_interval", "SingleInterval._intersection_single_interval", "SingleInterval._union_single_interval",
@@ -53,6 +57,36 @@ def selftest():
         PM.selftest()
     except AssertionError as e:
         raise HarnessError(f"posmodel self-test: {e!r}")
+
+
+AMBIENT = {"quick": [["minimal/location"]],
+           "thorough": [["minimal/location"], ["minimal/gene"], ["minimal/parent", "minimal/sequence", "minimal/util"], ["io"]]}
+
+
+def shards(tier, seed):
+    out = [{"i": i, "n": 16} for i in range(16)]
+    out += [{"i": 100 + k, "n": 16, "kind": "ambient", "paths": p} for k, p in enumerate(AMBIENT[tier])]
+    return out
+
+
+def run_shard(spec, ctx):
+    from bcv.monitors import ambient
+
+    if spec.get("kind") == "ambient":
+        ambient.run(ctx, spec["paths"])
+        ctx.note(("ambient", tuple(spec["paths"])), klass="ambient-repo-tests")
+    else:
+        ambient.default_loop(sys.modules[__name__], spec, ctx)
+
+
+def replay_case(case, ctx):
+    if case.get("kind") == "ambient":
+        from bcv.monitors import ambient
+
+        test = case.get("test") or ""
+        ambient.run(ctx, [test.split("tests/", 1)[-1]] if test else AMBIENT["quick"][0])
+    else:
+        run_case(case, ctx)
 
 
 def cases(spec, ctx):
